@@ -350,74 +350,79 @@ func toF(v Value) float64 {
 	panic("not a number")
 }
 
-func (in *interp) typesErr(e *gen.Expr, a, b Value) {
-	in.rt = &RuntimeErr{Class: "types", Node: e,
-		Contains: []string{"invalid types: " + TypeName(a) + ", " + TypeName(b)}}
+// OpErr is the failure of one operator application.
+type OpErr struct {
+	Class    string // types | divzero | repeat
+	Contains []string
 }
 
-func (in *interp) binop(e *gen.Expr, a, b Value) Value {
-	op := e.T
+func typesErr(a, b Value) *OpErr {
+	return &OpErr{Class: "types", Contains: []string{"invalid types: " + TypeName(a) + ", " + TypeName(b)}}
+}
+
+// Binop applies a documented binary operator (+ - * / == != < > <= >=).
+// unspec is non-empty when the documented rules do not fix the result.
+func Binop(op string, a, b Value) (v Value, err *OpErr, unspec string) {
 	_, aInt := a.(int)
 	_, bInt := b.(int)
 	switch {
 	case isNum(a) && isNum(b):
 		if op == "/" && bInt && b.(int) == 0 {
-			in.rt = &RuntimeErr{Class: "divzero", Node: e, Contains: []string{"division by int zero"}}
-			return nil
+			return nil, &OpErr{Class: "divzero", Contains: []string{"division by int zero"}}, ""
 		}
 		if aInt && bInt {
 			x, y := a.(int), b.(int)
 			switch op {
 			case "+":
-				return x + y
+				return x + y, nil, ""
 			case "-":
-				return x - y
+				return x - y, nil, ""
 			case "*":
-				return x * y
+				return x * y, nil, ""
 			case "/":
-				return x / y
+				return x / y, nil, ""
 			case "==":
-				return x == y
+				return x == y, nil, ""
 			case "!=":
-				return x != y
+				return x != y, nil, ""
 			case "<":
-				return x < y
+				return x < y, nil, ""
 			case ">":
-				return x > y
+				return x > y, nil, ""
 			case "<=":
-				return x <= y
+				return x <= y, nil, ""
 			case ">=":
-				return x >= y
+				return x >= y, nil, ""
 			}
 		}
 		x, y := toF(a), toF(b)
 		if math.IsNaN(x) || math.IsNaN(y) {
 			switch op {
 			case "==", "!=", "<", ">", "<=", ">=":
-				in.unspec = "comparison with NaN"
+				unspec = "comparison with NaN"
 			}
 		}
 		switch op {
 		case "+":
-			return x + y
+			return x + y, nil, unspec
 		case "-":
-			return x - y
+			return x - y, nil, unspec
 		case "*":
-			return x * y
+			return x * y, nil, unspec
 		case "/":
-			return x / y
+			return x / y, nil, unspec
 		case "==":
-			return x == y
+			return x == y, nil, unspec
 		case "!=":
-			return x != y
+			return x != y, nil, unspec
 		case "<":
-			return x < y
+			return x < y, nil, unspec
 		case ">":
-			return x > y
+			return x > y, nil, unspec
 		case "<=":
-			return x <= y
+			return x <= y, nil, unspec
 		case ">=":
-			return x >= y
+			return x >= y, nil, unspec
 		}
 	}
 	as, aStr := a.(string)
@@ -425,58 +430,66 @@ func (in *interp) binop(e *gen.Expr, a, b Value) Value {
 	if aStr && bStr {
 		switch op {
 		case "+":
-			return as + bs
+			return as + bs, nil, ""
 		case "<":
-			return as < bs
+			return as < bs, nil, ""
 		case ">":
-			return as > bs
+			return as > bs, nil, ""
 		case "<=":
-			return as <= bs
+			return as <= bs, nil, ""
 		case ">=":
-			return as >= bs
+			return as >= bs, nil, ""
 		}
 	}
 	if aStr && op == "+" {
 		switch y := b.(type) {
 		case int:
-			return as + strconv.Itoa(y)
+			return as + strconv.Itoa(y), nil, ""
 		case float64:
-			return as + strconv.FormatFloat(y, 'f', -1, 64)
+			return as + strconv.FormatFloat(y, 'f', -1, 64), nil, ""
 		case nil:
-			return as
+			return as, nil, ""
 		}
 	}
 	if aStr && bInt && op == "*" {
 		n := b.(int)
 		if n < 0 {
-			in.rt = &RuntimeErr{Class: "repeat", Node: e, Contains: []string{"repeat count"}}
-			return nil
+			return nil, &OpErr{Class: "repeat", Contains: []string{"repeat count"}}, ""
 		}
 		if n > 0 && len(as) > (1<<20)/n {
-			in.unspec = "string repetition beyond 2^20 bytes"
-			return ""
+			return "", nil, "string repetition beyond 2^20 bytes"
 		}
-		return strings.Repeat(as, n)
+		return strings.Repeat(as, n), nil, ""
 	}
 	switch op {
 	case "==", "!=":
 		_, aBlk := a.(bcl.Block)
 		_, bBlk := b.(bcl.Block)
 		if aBlk && bBlk {
-			in.typesErr(e, a, b)
-			return nil
+			return nil, typesErr(a, b), ""
 		}
 		eq := false
 		if !aBlk && !bBlk && TypeName(a) == TypeName(b) {
 			eq = a == b
 		}
 		if op == "!=" {
-			return !eq
+			return !eq, nil, ""
 		}
-		return eq
+		return eq, nil, ""
 	}
-	in.typesErr(e, a, b)
-	return nil
+	return nil, typesErr(a, b), ""
+}
+
+func (in *interp) binop(e *gen.Expr, a, b Value) Value {
+	v, oe, unspec := Binop(e.T, a, b)
+	if unspec != "" {
+		in.unspec = unspec
+	}
+	if oe != nil {
+		in.rt = &RuntimeErr{Class: oe.Class, Node: e, Contains: oe.Contains}
+		return nil
+	}
+	return v
 }
 
 func (in *interp) eval(e *gen.Expr) Value {
